@@ -80,3 +80,27 @@ Proof.
   intro k. do 3 (destruct k as [|k]; [vm_compute; reflexivity|]).
   vm_compute. reflexivity.
 Qed.
+
+(* non-vacuity computations used by Props/C29.v *)
+Lemma wit_window_points :
+  map (fun k => in_window (firstn k (ops_of wit_op wit_state))) [0; 1; 2]%nat = [false; true; false]
+  /\ lease_only wit_op = true /\ length (ops_of wit_op wit_state) = 2%nat.
+Proof. vm_compute. repeat split. Qed.
+
+Lemma wit_upload :
+  let ops := upload_ops 0 0 5 wit_rec0 [(0, unhex "68656c6c6f"%string)] in
+  length ops = 6%nat /\
+  view_of (recover (run_p ops empty_fs) (Final 0 0)) = VImm (unhex "68656c6c6f"%string) [wit_rec0] /\
+  view_of (recover (run_p (firstn 5 ops) empty_fs) (Final 0 0)) = VAbsent /\
+  run_p (firstn 5 ops) empty_fs (Incoming 0 0) <> None /\
+  recover (run_p (firstn 5 ops) empty_fs) (Incoming 0 0) = None.
+Proof. vm_compute. repeat split. discriminate. Qed.
+
+Lemma wit_http_resent :
+  let c0 := (0, [1; 2; 3]) in let c1 := (3, [4; 5; 6]) in let c2 := (6, [7; 8; 9]) in
+  covered 9 (write_ranges 9 [c0; c0; c1]) = false /\
+  view_of (recover (run_p (http_upload_ops 0 0 9 wit_rec0 [c0; c0; c1]) empty_fs) (Final 0 0)) = VAbsent /\
+  covered 9 (write_ranges 9 [c0; c0; c1; c2]) = true /\
+  view_of (recover (run_p (http_upload_ops 0 0 9 wit_rec0 [c0; c0; c1; c2]) empty_fs) (Final 0 0))
+  = VImm [1; 2; 3; 4; 5; 6; 7; 8; 9] [wit_rec0].
+Proof. vm_compute. repeat split. Qed.
